@@ -273,6 +273,12 @@ fn commitment_part(env: &Env, r: &Root, k: &Key, msgs: &[Vec<u8>], cms: &[Vec<u8
     for j in 0..r.m { let mut x = cwp.to_vec(); x.drain(80 + 32 * j..112 + 32 * j); cands.push((format!("remove m^_{j}"), "commitment-mhat-remove", x)); }
     for (nm, sc) in [("zero", vec![0u8; 32]), ("fresh", refbbs::sc_bytes(&refbbs::random_scalar_from(b"c06", b"c", 1)).to_vec())] { let mut x = cwp.to_vec(); let at = x.len() - 32; x.splice(at..at, sc); cands.push((format!("append {nm} scalar before the challenge"), "commitment-mhat-append", x)); }
     for t in 1..=33usize { let mut x = cwp.to_vec(); x.extend(vec![0u8; t]); cands.push((format!("{t} trailing zero octets"), "commitment-trailing", x)); }
+    // many whole scalars inserted before the challenge (a count kept in a narrow integer wraps at 256 / 65536)
+    for k in [255usize, 256, 257, 512] { for (nm, fresh) in [("zero", false), ("fresh", true)] {
+        let mut x = cwp.to_vec(); let at = x.len() - 32;
+        let ins: Vec<u8> = (0..k).flat_map(|j| if fresh { refbbs::sc_bytes(&refbbs::random_scalar_from(b"c06", b"ins", j as u64 + 7)).to_vec() } else { vec![0u8; 32] }).collect();
+        x.splice(at..at, ins); cands.push((format!("insert {k} {nm} scalars before the challenge"), "commitment-many-scalars", x));
+    } }
     for t in [1usize, 31, 32, 33, 64] { if cwp.len() > t { cands.push((format!("truncate by {t} octets"), "commitment-truncate", cwp[..cwp.len() - t].to_vec())); } }
     // the identity as commitment point with a proof that is not about it: this run's own proof scalars, and fresh scalars
     { let mut id = vec![0u8; 48]; id[0] = 0xc0;
